@@ -23,12 +23,8 @@ var orderScopeUses = map[string]bool{
 // table"): key = function + symbol, value = the reason why the flagged effect
 // is order-free after all. No wildcards.
 var orderExceptions = map[string]string{
-	"(*lib/journal.Builder).Add:overwrite variable param j.min":                                                      "running minimum guarded by j.min.After(t.Date); the stored d.Date is the date of the Day looked up for t.Date, i.e. the same instant",
-	"lib/reports/balance.setAccounts:first-wins variable acc":                                                        "acc is the parent path of a child's account; all children of one node share that parent path, so every candidate is the same interned account",
-	"(*lib/reports/balance.Report).Insert:overwrite variable phi n.Value.Account":                                    "first insert initialises the node; the node is looked up by k.Account.Segments(), so every element reaching it carries the same interned account",
-	"(*lib/reports/balance.Report).Insert:overwrite variable phi n.Value.Amounts":                                    "initialised with an empty map on the first insert into the node (guarded by the nil test on the sibling field set together with it)",
-	"(*lib/reports/weights.Report).Add:overwrite variable GetOrCreate[lib/reports/weights.Value](…,…).Value.Weights": "lazy initialisation of the node's map under a nil test",
-	"(*lib/reports/weights.Report).Add:overwrite variable GetOrCreate[lib/reports/weights.Value](…,…).Value.Leaf":    "constant flag set on initialisation",
+	"(*lib/journal.Builder).Add:overwrite variable param j.min": "running minimum guarded by j.min.After(t.Date); the stored d.Date is the date of the Day looked up for t.Date, i.e. the same instant",
+	"lib/reports/balance.setAccounts:first-wins variable acc":   "acc is the parent path of a child's account; all children of one node share that parent path, so every candidate is the same interned account",
 }
 
 func originName(fn *ssa.Function) string {
@@ -290,9 +286,15 @@ func (of *orderFlow) run() {
 					}
 				}
 				condParam := of.sortedIfParamNonNil(v, x)
+				nilOnly := returnOnlyIfParamNil(x)
 				for _, site := range of.callersOf(callee) {
 					val, ok := site.(ssa.Value)
 					if !ok {
+						continue
+					}
+					if nilOnly >= 0 && nilOnly < len(site.Common().Args) && core.FuncValue(site.Common().Args[nilOnly]) != nil {
+						// this return is taken only when the comparator parameter is nil, and
+						// this caller passes a function: it receives the sorted result instead
 						continue
 					}
 					if condParam >= 0 && condParam < len(site.Common().Args) && core.FuncValue(site.Common().Args[condParam]) != nil {
@@ -594,22 +596,77 @@ func nonLexicographicBranch(p *core.Prog, f *ssa.Function) string {
 		if _, ok := allowed[describeValue(p, iff.Cond)]; ok {
 			continue
 		}
+		if isRootLevelTest(p, iff.Cond, 0) {
+			continue
+		}
 		return "branch at " + p.Pos(core.NearPos(iff)) + " on " + describeValue(p, iff.Cond)
 	}
 	return ""
 }
 
+// isRootLevelTest: cond tests that an account is a first-level account
+// (Level() == 1), directly or through a module helper that is a conjunction of
+// such tests. Reviewed once for all comparators: first-level accounts are the
+// five roots, which are in bijection with the account types (account.types), so
+// a branch that compares the types of two root accounts is total on its
+// domain; every other pair falls through to the rest of the comparator, which
+// still has to read an identity key.
+func isRootLevelTest(p *core.Prog, cond ssa.Value, depth int) bool {
+	switch x := cond.(type) {
+	case *ssa.BinOp:
+		if x.Op != token.EQL {
+			return false
+		}
+		call, k := x.X, x.Y
+		if _, isC := call.(*ssa.Const); isC {
+			call, k = k, call
+		}
+		cl, ok := call.(*ssa.Call)
+		n, okN := core.ConstInt(k)
+		if !ok || !okN || n != 1 || cl.Call.StaticCallee() == nil {
+			return false
+		}
+		callee := cl.Call.StaticCallee()
+		return core.PkgPathOf(callee) == pkgAccount && callee.Name() == "Level"
+	case *ssa.Call:
+		callee := x.Call.StaticCallee()
+		if callee == nil || callee.Blocks == nil || !p.InModule(callee) || depth > 1 {
+			return false
+		}
+		// every branch condition of the helper is a root-level test and it returns only
+		// booleans derived from them
+		okAll, any := true, false
+		for _, b := range callee.Blocks {
+			switch t := b.Instrs[len(b.Instrs)-1].(type) {
+			case *ssa.If:
+				any = true
+				if !isRootLevelTest(p, t.Cond, depth+1) {
+					okAll = false
+				}
+			case *ssa.Return:
+				for _, rv := range t.Results {
+					switch r := rv.(type) {
+					case *ssa.Const, *ssa.Phi:
+					case *ssa.BinOp:
+						any = true
+						if !isRootLevelTest(p, r, depth+1) {
+							okAll = false
+						}
+					default:
+						okAll = false
+					}
+				}
+			}
+		}
+		return okAll && any
+	}
+	return false
+}
+
 // branchExceptions — reviewed branches inside comparators (function ->
 // condition -> reason). Only the branch is excused; the comparator still has
 // to read an identity key or every printed field.
-var branchExceptions = map[string]map[string]string{
-	"(*lib/reports/balance.Report).SortAlpha$1": {
-		"Level(….Account)==1:int": "first-level nodes are the five roots, which are in bijection with the account types compared on this branch (account.types); all other nodes fall through to the segment comparison",
-	},
-	"(*lib/reports/balance.Report).SortWeighted$2": {
-		"Level(….Account)==1:int": "first-level nodes are the five roots, in bijection with the account types compared on this branch; all other nodes fall through to the weight comparison, which must be tie-broken by segment",
-	},
-}
+var branchExceptions = map[string]map[string]string{}
 
 // isComparisonResult: v is the int result of a two-argument comparison call
 // (possibly through a phi of such results).
@@ -849,6 +906,49 @@ func keyFieldsSet(p *core.Prog, ctor *ssa.Function) []string {
 // sortedIfParamNonNil: in the function returning slice v at ret, v is sorted
 // by a call that executes exactly when a function-typed parameter is non-nil
 // (`if cmp != nil { sort(v, cmp) }`). Returns that parameter's index or -1.
+// returnOnlyIfParamNil: the return is control-dependent on `param == nil`
+// (taken on the nil side only); returns the parameter's index, -1 otherwise.
+func returnOnlyIfParamNil(ret *ssa.Return) int {
+	fn := ret.Parent()
+	for _, b := range fn.Blocks {
+		iff, ok := b.Instrs[len(b.Instrs)-1].(*ssa.If)
+		if !ok {
+			continue
+		}
+		ctl, side := core.Controls(b, ret.Block())
+		if !ctl {
+			continue
+		}
+		bo, ok := iff.Cond.(*ssa.BinOp)
+		if !ok || (bo.Op != token.EQL && bo.Op != token.NEQ) {
+			continue
+		}
+		v := bo.X
+		if core.IsNilConst(v) {
+			v = bo.Y
+		} else if !core.IsNilConst(bo.Y) {
+			continue
+		}
+		prm, ok := v.(*ssa.Parameter)
+		if !ok {
+			continue
+		}
+		nilSide := 0
+		if bo.Op == token.NEQ {
+			nilSide = 1
+		}
+		if side != nilSide {
+			continue
+		}
+		for i, q := range fn.Params {
+			if q == prm {
+				return i
+			}
+		}
+	}
+	return -1
+}
+
 func (of *orderFlow) sortedIfParamNonNil(v ssa.Value, ret *ssa.Return) int {
 	fn := ret.Parent()
 	res := -1
